@@ -40,10 +40,11 @@ DNext == /\ steps < MaxSteps
 DSpec == DInit /\ [][DNext]_<<shardVars, steps>>
 
 \* small universes for the exhaustive configuration
-Fv(c, w) == [c |-> c, ix |-> <<>>, d |-> 0, sz |-> w]
-Del == [c |-> "_delete", ix |-> <<>>, d |-> 1, sz |-> 0]
-MCDocs == { <<>>, [a |-> Fv("1", 0)], [a |-> Fv("2", 0), b |-> Fv("B", 700)] }
-MCUpd  == { [a |-> Fv("3", 0)], [a |-> Del], [c |-> Fv("B", 700)], [b |-> Del, a |-> Fv("1", 0)] }
+Fv(c, w) == [c |-> c, ix |-> <<>>, d |-> 0, sz |-> w, bad |-> 0]
+Del == [c |-> "_delete", ix |-> <<>>, d |-> 1, sz |-> 0, bad |-> 0]
+Bad == [c |-> "oops", ix |-> <<>>, d |-> 0, sz |-> 0, bad |-> 1]
+MCDocs == { <<>>, [a |-> Fv("1", 0)], [a |-> Fv("2", 0), b |-> Fv("B", 700)], [a |-> Bad] }
+MCUpd  == { [a |-> Fv("3", 0)], [a |-> Del], [c |-> Fv("B", 700)], [b |-> Del, a |-> Fv("1", 0)], [b |-> Bad] }
 
 \* action properties of the design
 OnlyInsertAdds == [][DOMAIN pts' \ DOMAIN pts # {} => count' > count]_<<shardVars, steps>>
